@@ -59,6 +59,10 @@ class C14(Prop):
             out.append({'kind': 'announce', 'role': rng.choice(['server', 'server', 'client']), 'leases': [[rng.choice([0, 1, 7, 2 ** 31 - 1]), rng.choice([1000, 2_500_000, 500_000, 1_500_000, 60_000_000, 999_000, 86_399_999_000, 86_400_000_000, 86_405_000_000, 172_800_000_000, 266_400_017_000,
                                                                                                    2_147_483_647_000, rng.randint(1, 2_147_483_647) * 1000])] for _ in range(rng.randint(1, 3))],
                         'delays': rng.choice([None, None, [0], [200, 400], [3000], [1, 700]])})
+            c = out[-1]
+            if c['delays'] and rng.random() < 0.5:
+                c['leases'] = (c['leases'] + [c['leases'][0]] + ([c['leases'][0]] if rng.random() < 0.3 else []))[:4]
+                c['same_object'] = True
         return out
 
     def run_impl(self, case):
@@ -182,6 +186,10 @@ class C14(Prop):
         # a publisher may prepare its leases ahead of time and publish them later (or publish one object again): what is announced is the
         # lease as published, however old the object is
         prepared = [DefinedLease(maximum_request_count=n, maximum_lease_time=timedelta(microseconds=us)) for n, us in case['leases']] if case.get('delays') else None
+        if prepared and case.get('same_object'):
+            # a renewal published as the very same object (a periodic publisher that keeps one DefinedLease): it is a publication like any other
+            first = {}
+            prepared = [first.setdefault((n, us), obj) for (n, us), obj in zip(map(tuple, case['leases']), prepared)]
         for i, (n, us) in enumerate(case['leases']):
             if not hasattr(pub, 's'):
                 break         # the endpoint never subscribed to its lease publisher: nothing can be announced
